@@ -279,6 +279,38 @@ def apply_op(model, x, S, op):
     return None
 
 
+def snapshot(model):
+    """generic reset point of a real object: every module's attribute bindings (incl. the registered parameter /
+    buffer / sub-module tables, bound sampler methods, python flags) and the content + requires_grad of every tensor"""
+    import torch
+    mods, tens = [], {}
+    for m in model.modules():
+        d = dict(m.__dict__)
+        for k in ('_parameters', '_buffers', '_modules'):
+            d[k] = dict(d[k])
+        mods.append((m, d))
+        for v in list(d['_parameters'].values()) + list(d['_buffers'].values()) + list(d.values()):
+            if isinstance(v, torch.Tensor) and id(v) not in tens:
+                tens[id(v)] = (v, v.detach().clone(), bool(v.requires_grad))
+    return mods, tens
+
+
+def restore(snap):
+    import torch
+    mods, tens = snap
+    for m, d in mods:
+        m.__dict__.clear()
+        m.__dict__.update(d)
+        for k in ('_parameters', '_buffers', '_modules'):
+            m.__dict__[k] = dict(d[k])
+    with torch.no_grad():
+        for t, data, rg in tens.values():
+            t.grad = None
+            if t.is_leaf and t.requires_grad != rg:
+                t.requires_grad_(rg)
+            t.data.copy_(data)
+
+
 def describe(method, model, x):
     """static description of the prototype = the instance of Model/Train.v (ids are positions in `names`)"""
     import torch
